@@ -840,6 +840,12 @@ func (p *Path) binop(op token.Token, x, y Value, xt, yt types.Type) Value {
 			p.unsupported("string binop with %T", y)
 		}
 		if !xv.IsString && !yv.IsString {
+			switch op {
+			case token.EQL:
+				return p.valueEq(x, y)
+			case token.NEQ:
+				return tc.Not(p.valueEq(x, y))
+			}
 			p.unsupported("slice comparison")
 		}
 		switch op {
